@@ -110,7 +110,16 @@ func indexText(t *kernel.Tape, nLists int) string {
 	}
 	// A sprinkling of invalid entries; the valid ones must still be applied.
 	for i := t.Choose(3, "invalid-entries"); i > 0; i-- {
-		switch t.Choose(6, "invalid-kind") {
+		switch t.Choose(8, "invalid-kind") {
+		case 6, 7:
+			// A record that lacks one of its fields altogether, anywhere in
+			// the index: where a complete record stood in the round before.
+			rec := map[string]any{"filterKey": "no_url_list"}
+			if t.Chance(1, 2, "lacks-key") {
+				rec = map[string]any{"downloadUrl": originURL + "/list/nokey"}
+			}
+			pos := t.Choose(len(fl)+1, "invalid-position")
+			fl = append(fl[:pos:pos], append([]map[string]any{rec}, fl[pos:]...)...)
 		case 4:
 			// An invalid record in front of the valid record of the same key.
 			fl = append([]map[string]any{{"filterKey": string(listID(t.Choose(nLists, "twin-of"))), "downloadUrl": ""}}, fl...)
@@ -752,6 +761,16 @@ func runC13(s *kernel.Sim, cfg string) {
 				}
 			}
 			served = got
+
+			// Keys that only invalid records ever carried name no list.
+			for _, id := range []filter.ID{"no_url_list", "empty_url", "ftp_list"} {
+				if l.st.HasListID(id) {
+					s.Failf("C13/invalid-entry-applied", "an invalid index record was applied: a list exists under its key",
+						"round %d (faults %v): the storage has a list %q", r, fl, id)
+
+					return
+				}
+			}
 
 			if bad = l.checkDisk(cacheDir); bad != "" {
 				s.Failf("C13/disk", "a cache file is neither the previous nor the new complete version", "round %d: %s", r, bad)
